@@ -165,7 +165,16 @@ def rec_ess(sc):
         w = [k * v for v in ws]
         try:
             with time_limit(5), np.errstate(all="ignore"):
-                v = compute_ess(w if sc.get("aslist") else np.array(w, dtype=float))
+                # wform: the same weights on another overall scale (the effective sample size does not depend on it): floats
+                # times an exact power of two whose SQUARE under- or overflows, or large int64 counts
+                wf = sc.get("wform")
+                if wf == "int64":
+                    arg = np.array(w, dtype=np.int64) * np.int64(3 * 10 ** 9)
+                elif wf:
+                    arg = np.array(w, dtype=float) * 2.0 ** int(wf)
+                else:
+                    arg = w if sc.get("aslist") else np.array(w, dtype=float)
+                v = compute_ess(arg)
             e["val"], c = fx_cls(float(v), 10 ** 6)
             if c != "fin":
                 e["res"] = "nonfinite"
@@ -505,6 +514,8 @@ def ess_scenarios(ctx, rnd):
         maxw = rnd.choice([1, 5, 30])
         ws = [rnd.choice([0, rnd.randint(0, maxw), rnd.randint(1, maxw)]) for _i in range(n)]
         out.append(dict(kind="ess", ws=ws, calls=[1, rnd.choice([2, 3, 5])], aslist=rnd.random() < 0.3))
+        if rnd.random() < 0.3 and any(ws):
+            out.append(dict(kind="ess", ws=ws, calls=[1], wform=rnd.choice(["int64", -540, -620, 520, 300])))
     return out, n_exh
 
 
